@@ -30,6 +30,10 @@ structure Env where
   ans : Nat → Ans
   repl : Nat → Bool
   readable : Bool := true
+  /-- op `task`: the context of `HandleTask` is cancelled while the object is being sent to this node … -/
+  cutAt : Option Nat := none
+  /-- … and the node nevertheless stored the object and its answer arrived (otherwise the transfer failed) -/
+  cutStored : Bool := false
 
 /-- one `replicator.Task` together with the successes the replicator reported for it -/
 structure Task where
@@ -75,16 +79,19 @@ structure Loop where
   cands : List Nat := []
   deriving Repr
 
+/-- `shortage--` on the `uint32` counter of `processNodes`: wraps at zero -/
+def dec32 (n : Nat) : Nat := if n = 0 then 4294967295 else n - 1
+
 /-- `handleMaintenance` -/
 def onMaint (c : Ctx) (l : Loop) (n : Nat) : Ctx × Loop :=
-  ({ c with cache := (n, true) :: c.cache, unchk := n :: c.unchk }, { l with shortage := l.shortage - 1, unchecked := l.unchecked + 1 })
+  ({ c with cache := (n, true) :: c.cache, unchk := n :: c.unchk }, { l with shortage := dec32 l.shortage, unchecked := l.unchecked + 1 })
 
 /-- the body of the node loop for node `n` -/
 def nodeStep (e : Env) (c : Ctx) (l : Loop) (n : Nat) : Ctx × Loop :=
   let isLocal := n = e.me
   let c := { c with inCnr := c.inCnr || isLocal }
   if l.shortage = 0 then (c, l)                       -- still looking for the local node
-  else if isLocal then ({ c with need := true }, { l with shortage := l.shortage - 1 })
+  else if isLocal then ({ c with need := true }, { l with shortage := dec32 l.shortage })
   else if e.flag n then onMaint c l n
   else match cacheGet c.cache n with
     | some true => (c, l)
@@ -95,7 +102,7 @@ def nodeStep (e : Env) (c : Ctx) (l : Loop) (n : Nat) : Ctx × Loop :=
       | .notFound => ({ c with cache := (n, false) :: c.cache }, { l with cands := l.cands ++ [n] })
       | .maint => onMaint c l n
       | .err => (c, l)
-      | .holds => ({ c with cache := (n, true) :: c.cache }, { l with shortage := l.shortage - 1 })
+      | .holds => ({ c with cache := (n, true) :: c.cache }, { l with shortage := dec32 l.shortage })
 
 /-- `for i := 0; (!plc.localNodeInContainer || shortage > 0) && i < len(nodes); i++` -/
 def walk (e : Env) : Ctx → Loop → List Nat → Ctx × Loop
@@ -126,7 +133,8 @@ def finish (e : Env) (legacy : Bool) (c : Ctx) (l : Loop) : Ctx :=
 
 def isBroadcast (t : OType) : Bool := t = .lock || t = .link
 
-/-- the shortage a list starts with: LOCK and LINK objects are wanted on every node of the list -/
+/-- the shortage a list starts with: LOCK and LINK objects are wanted on every node of the list (copy numbers are
+`uint32` in the protocol, so the conversion `uint32(repRules[i])` loses nothing) -/
 def startShortage (t : OType) (nodes : List Nat) (copies : Nat) : Nat :=
   if isBroadcast t then nodes.length else copies
 
@@ -264,11 +272,122 @@ def processObject (e : Env) (legacy : Bool) (o : Obj) (p : Placement) : Out :=
       if !p.ecRules.isEmpty && o.typ = .regular && p.rep.isEmpty then { dels := [.dflt] }
       else repPart e legacy o p []
 
+/-! ### `Replicator.HandleTask` with a context cancelled in flight, and with the object carried by the task (op `task`) -/
+
+/-- the remote node `n` really stored the object when it was sent to it -/
+def storedBy (e : Env) (n : Nat) : Bool := e.repl n && (e.cutAt != some n || e.cutStored)
+
+/-- the node loop of `HandleTask`.  `withObj`: the task carries the object (`task.obj != nil`), so the local node
+is a legal target (local `Put`).  When the context is cancelled during the transfer to `e.cutAt` the transfer
+fails unless the node had already stored and answered (`cutStored`); the next iteration sees `ctx.Done()`. -/
+def sendLoopC (e : Env) (withObj : Bool) : Nat → List Nat → List Nat
+  | _, [] => []
+  | q, n :: ns =>
+    if q = 0 then []
+    else if n = e.me then (if withObj then n :: sendLoopC e withObj (q - 1) ns else sendLoopC e withObj q ns)
+    else if e.cutAt = some n then (if storedBy e n then [n] else [])
+    else if e.repl n then n :: sendLoopC e withObj (q - 1) ns
+    else sendLoopC e withObj q ns
+
+def handleTaskC (e : Env) (withObj : Bool) (q : Nat) (nodes : List Nat) : List Nat :=
+  if withObj || e.readable then sendLoopC e withObj q nodes else []
+
+/-! ### `checkECParts` / `recreateECParts`: health check of the sibling parts of a local EC part (op `recreate`) -/
+
+/-- what the nodes answer when asked for the parts of the object: `stat p n` for part `p` and node `n` (for the
+local node: the local storage); `rfail p`: reading the payload of part `p` fails everywhere -/
+structure PartsEnv where
+  stat : Nat → Nat → Ans
+  rfail : Nat → Bool
+
+inductive HeadRes | found | skip | missing
+  deriving DecidableEq, Repr
+
+/-- the HEAD loop over the node sequence of one part: the nodes asked and the outcome -/
+def headPart (st : Nat → Ans) : List Nat → List Nat × HeadRes
+  | [] => ([], .missing)
+  | n :: ns =>
+    match st n with
+    | .holds => ([n], .found)
+    | .maint => ([n], .skip)
+    | _ => let r := headPart st ns; (n :: r.1, r.2)
+
+structure Chk where
+  missing : List Nat := []
+  skip : List Nat := []
+  heads : List (Nat × Nat) := []     -- (part, node) HEAD requests incl. the local storage
+  ranges : List (Nat × Nat) := []    -- (part, node) payload requests incl. the local storage
+  abort : Bool := false
+  deriving Repr
+
+/-- "too many EC parts unavailable" -/
+def Chk.full (s : Chk) (parity : Nat) : Bool := decide (parity ≤ s.missing.length + s.skip.length)
+
+/-- one iteration of the `headNextPart` loop -/
+def headStep (pe : PartsEnv) (nodes : List Nat) (total parity lp : Nat) (s : Chk) (p : Nat) : Chk :=
+  if s.abort || p = lp then s
+  else
+    let r := headPart (pe.stat p) (partSeq nodes p total)
+    let s := { s with heads := s.heads ++ r.1.map fun n => (p, n) }
+    match r.2 with
+    | .found => s
+    | .skip => if s.full parity then { s with abort := true } else { s with skip := s.skip ++ [p] }
+    | .missing => if s.full parity then { s with abort := true } else { s with missing := s.missing ++ [p] }
+
+/-- the payload loop over the node sequence of one available part: nodes asked, success -/
+def rangePart (pe : PartsEnv) (me p lp : Nat) : List Nat → List Nat × Bool
+  | [] => ([], false)
+  | n :: ns =>
+    if n = me && p = lp then rangePart pe me p lp ns          -- the local part was tried before the loop
+    else if pe.stat p n = .holds && !pe.rfail p then ([n], true)
+    else let r := rangePart pe me p lp ns; (n :: r.1, r.2)
+
+/-- one iteration of the `getNextPart` loop -/
+def rangeStep (pe : PartsEnv) (me : Nat) (nodes : List Nat) (total parity lp : Nat) (s : Chk) (p : Nat) : Chk :=
+  if s.abort || s.skip.contains p || s.missing.contains p then s
+  else if p = lp && !pe.rfail p then { s with ranges := s.ranges ++ [(p, me)] }
+  else
+    let s := if p = lp then { s with ranges := s.ranges ++ [(p, me)] } else s
+    let r := rangePart pe me p lp (partSeq nodes p total)
+    let s := { s with ranges := s.ranges ++ r.1.map fun n => (p, n) }
+    if r.2 then s
+    else if s.full parity then { s with abort := true } else { s with skip := s.skip ++ [p] }
+
+/-- `checkECParts` up to the call of `recreateECParts`: the parts to re-create (empty when nothing is lost or
+when too many parts are unavailable) together with the request logs -/
+def checkParts (pe : PartsEnv) (me : Nat) (nodes : List Nat) (total parity lp : Nat) : Chk :=
+  let s := (List.range total).foldl (headStep pe nodes total parity lp) {}
+  if s.abort || s.missing.isEmpty then { s with missing := [] }
+  else
+    let s := (List.range total).foldl (rangeStep pe me nodes total parity lp) s
+    if s.abort then { s with missing := [] } else s
+
+/-- a re-created part handed to the replicator -/
+structure RecTask where
+  part : Nat
+  nodes : List Nat      -- the order in which the nodes are offered the part
+  done : List Nat
+  deriving DecidableEq, Repr
+
+/-- `recreateECPart`: the part is offered to the nodes in the part's own node order, one copy is asked for, the
+task carries the object (the local node is a legal target) -/
+def recreatePart (e : Env) (nodes : List Nat) (total : Nat) (p : Nat) : RecTask :=
+  let order := partSeq nodes p total
+  { part := p, nodes := order, done := handleTaskC e true 1 order }
+
+/-- `checkECParts` + `recreateECParts` for the local part `lp` of an object split into `total` parts
+(`parity` of them parity parts) over the node list `nodes` of its EC rule -/
+def recreate (e : Env) (pe : PartsEnv) (nodes : List Nat) (total parity lp : Nat) : Chk × List RecTask :=
+  let s := checkParts pe e.me nodes total parity lp
+  (s, s.missing.map (recreatePart e nodes total))
+
 /-! ### a cluster: the nodes that hold one object, and policer cycles over them (C27)
 
 Every holder runs the pass above with itself as the local node.  Remote nodes answer truthfully from the
 shared state (`holds` iff the node is a holder), nodes that are `down` answer with an error and refuse
-replicas; a successful replication makes the target a holder, a deletion removes the local node. -/
+replicas; nodes of `maint` are in the MAINTENANCE state in the network map (they are not asked, would answer with
+the maintenance status, refuse replicas and do not run their own policer); a successful replication makes the
+target a holder, a deletion removes the local node. -/
 
 structure Cluster where
   typ : OType := .regular
@@ -280,14 +399,15 @@ def addNode (n : Nat) : List Nat → List Nat
   | [] => [n]
   | x :: xs => if n < x then n :: x :: xs else if n = x then x :: xs else x :: addNode n xs
 
-def clusterEnv (down hold : List Nat) (me : Nat) : Env :=
-  { me := me, inNetmap := true, flag := fun _ => false,
-    ans := fun n => if down.contains n then .err else if hold.contains n then .holds else .notFound,
-    repl := fun n => !down.contains n, readable := true }
+def clusterEnv (down maint hold : List Nat) (me : Nat) : Env :=
+  { me := me, inNetmap := true, flag := fun n => maint.contains n,
+    ans := fun n => if down.contains n then .err else if maint.contains n then .maint
+                    else if hold.contains n then .holds else .notFound,
+    repl := fun n => !down.contains n && !maint.contains n, readable := true }
 
 /-- the pass of holder `me` -/
-def passOf (cl : Cluster) (down : List Nat) (me : Nat) : Out :=
-  processObject (clusterEnv down cl.hold me) false { typ := cl.typ } cl.plc
+def passOf (cl : Cluster) (down maint : List Nat) (me : Nat) : Out :=
+  processObject (clusterEnv down maint cl.hold me) false { typ := cl.typ } cl.plc
 
 /-- the holders after the pass of `me`: replicas made are added, a deleted local copy is removed -/
 def holdersAfter (hold : List Nat) (me : Nat) (out : Out) : List Nat :=
@@ -295,17 +415,17 @@ def holdersAfter (hold : List Nat) (me : Nat) (out : Out) : List Nat :=
   if out.dels.isEmpty then h1 else h1.filter (· != me)
 
 /-- one node's turn in a cycle: nodes that do not hold the object, or are down, do nothing -/
-def turn (down : List Nat) (acc : Cluster × Nat × List Nat) (me : Nat) : Cluster × Nat × List Nat :=
+def turn (down maint : List Nat) (acc : Cluster × Nat × List Nat) (me : Nat) : Cluster × Nat × List Nat :=
   let cl := acc.1
-  if !cl.hold.contains me || down.contains me then acc
+  if !cl.hold.contains me || down.contains me || maint.contains me then acc
   else
-    let out := passOf cl down me
+    let out := passOf cl down maint me
     ({ cl with hold := holdersAfter cl.hold me out }, acc.2.1 + out.tasks.length,
       if out.dels.isEmpty then acc.2.2 else acc.2.2 ++ [me])
 
 /-- one cycle: the nodes of `order` take their turns one after another; returns the cluster, the number of
 replication tasks issued and the nodes that dropped their copy -/
-def round (cl : Cluster) (order down : List Nat) : Cluster × Nat × List Nat :=
-  order.foldl (turn down) (cl, 0, [])
+def round (cl : Cluster) (order down maint : List Nat) : Cluster × Nat × List Nat :=
+  order.foldl (turn down maint) (cl, 0, [])
 
 end NeoFS.Policer
